@@ -183,7 +183,8 @@ LR_TIE = (" Tied to the source on every run: the unmodified header, instantiated
 
 
 def register(PROPS, COMPONENTS):
-    COMPONENTS["lr"] = dict(client="lr", driver="lr", directed_runs=12, quick_runs=1600, thorough_runs=60000, oracle=oracle_lr)
+    COMPONENTS["lr"] = dict(client="lr", driver="lr", directed_runs=12, quick_runs=1600, thorough_runs=60000, oracle=oracle_lr,
+                            cov_headers=["gmlc/libguarded/lr_guarded.hpp"])
     PROPS["C03"] = dict(
         lean_files=["ConcVerif/Props/C03.lean"], components=["lr"], stage="A",
         level_text="Lean 4 theorems (kernel-checked; unbounded threads, calls and interleavings, throwing functors included) over "
